@@ -180,6 +180,7 @@ func genHistory(c *ctx, prof histProfile, ndsRequired bool) {
 	version := 0
 	curTable := []kv{}
 	faults := 0
+	ever := map[string]bool{"lds": true} // the types subscribed so far, as the script knows them (start-up, lookups)
 	for i := 0; i < prof.steps && !h.hung; i++ {
 		closed := w.m.VerifClosed()
 		x := r.intn(100)
@@ -236,6 +237,7 @@ func genHistory(c *ctx, prof histProfile, ndsRequired bool) {
 			n := u[r.intn(len(u))]
 			var res string
 			c.count("get", 1)
+			ever[rt] = true
 			h.step(obj{"o": "get", "rt": rt, "n": n}, func() { res = w.get(rtOf(rt), n) })
 			last := h.steps[len(h.steps)-1].(obj)
 			if ob, ok := last["obs"].(obj); ok {
@@ -277,7 +279,9 @@ func genHistory(c *ctx, prof histProfile, ndsRequired bool) {
 		case !closed:
 			rt := []string{"lds", "rds", "cds", "eds"}[r.intn(4)]
 			// E2: the control plane answers, it does not speak first
-			if _, watched := w.m.VerifInterest()[rtOf(rt)]; watched && w.countReq(len(w.ads.streams), urlOf(rt)) == 0 {
+			// (whether the type is subscribed is the script's own knowledge - start-up and lookups -, not read from the client:
+			// a client that wrongly believes a type subscribed must not be able to steer the script away from it)
+			if ever[rt] && w.countReq(len(w.ads.streams), urlOf(rt)) == 0 {
 				c.count("push-skipped-E2", 1)
 				continue
 			}
